@@ -120,6 +120,9 @@ def case_tools(ctx):
         n = rng.randrange(2, 7)
         src = ["start"] + [rng.choice(vocab) + str(rng.randrange(3)) for _ in range(n)]
         tgt = ["Debut"] + [rng.choice(vocab) + "x" * rng.randrange(0, 9) for _ in range(n)]
+        if trial == 0:          # words without any ASCII letter: their capitals are all outside ASCII, in every casing
+            src = ["start", "moscow", "czechia", "omega", "moscow"]
+            tgt = ["Debut", "\u041c\u043e\u0441\u043a\u0432\u0430", "\u0427\u0435\u0445\u0438\u044f", "\u03a9\u03bc\u03ad\u03b3\u03b1", "\u041c\u043e\u0441\u043a\u0432\u0430"]
         giza = ("# Sentence pair (1) source length %d target length %d alignment score : 0.1\n%s\nNULL ({ }) " % (len(src), len(tgt), " ".join(tgt)) +
                 " ".join("%s ({ %d })" % (w, i + 1) for i, w in enumerate(src)) + "\n").encode()
         fa, fs, ft, fm = (os.path.join(ctx.tmp, x) for x in ("giza.txt", "src.txt", "tgt.txt", "model.txt"))
@@ -156,6 +159,31 @@ def case_tools(ctx):
                 "want": expect.decode(), "status": st},
                 summary=f"apply_case with the model train_case just wrote does not restore the casing: {out2!r} instead of {expect!r} (keys incompatible)")
             return
+        # the text handed to apply_case need not be lowercase already: the key is built from the LOWERED word whatever case it arrives in
+        # (capitals outside ASCII included), so the target in its original casing must come out exactly as it is
+        open(ft, "wb").write((" ".join(tgt) + "\n").encode())
+        st, out3, err = pvlib.run_tool([ctx.bin("apply_case"), fa2, fs, ft, fm], b"", env=pvlib.san_env())
+        ctx.count("apply_case.cased-input", 1, [(tuple(src), tuple(tgt))])
+        expect3 = (" ".join(tgt) + "\n").encode()
+        if st != 0 or out3 != expect3:
+            pvlib.report_violation(ctx, "apply_case-cased:" + " ".join(src) + "|" + " ".join(tgt), {
+                "argv": ["apply_case", "<align>", "<source>", "<target in its original casing>", "<model from train_case>"], "model": out.decode(), "got": out3.decode(errors="replace"),
+                "want": expect3.decode(), "status": st},
+                summary=f"apply_case on text that is not lowercase yet does not find the keys train_case wrote: {out3!r} instead of {expect3!r}")
+            return
+        # ... and in ALL CAPITALS (where upper-casing loses nothing): the model's casing must come back
+        up = [w.upper() if w.upper().lower() == w.lower() else w for w in tgt]
+        open(ft, "wb").write((" ".join(up) + "\n").encode())
+        st, out4, err = pvlib.run_tool([ctx.bin("apply_case"), fa2, fs, ft, fm], b"", env=pvlib.san_env())
+        ctx.count("apply_case.upper-input", 1, [(tuple(src), tuple(up))])
+        expect4 = (" ".join([up[0]] + tgt[1:]) + "\n").encode()
+        if st != 0 or out4 != expect4:
+            pvlib.report_violation(ctx, "apply_case-upper:" + " ".join(src) + "|" + " ".join(up), {
+                "argv": ["apply_case", "<align>", "<source>", "<target in capitals>", "<model from train_case>"], "model": out.decode(), "target": " ".join(up),
+                "got": out4.decode(errors="replace"), "want": expect4.decode(), "status": st},
+                summary=f"apply_case on {' '.join(up)!r} does not find the keys train_case wrote for the lowered words: {out4.decode(errors='replace')!r} instead of {expect4.decode()!r}")
+            return
+        open(ft, "wb").write((" ".join(w.lower() for w in tgt) + "\n").encode())
         # several sentences in one run, links in any order, one-word sentences: the keys looked up for a sentence may not
         # depend on the sentence before it -- the run must equal the sentences processed one by one with the same model
         sents = []
